@@ -61,7 +61,7 @@ class C14(Prop):
         plugin = fd({'roles': st.lists(st.sampled_from(['decorator', 'logger', 'resource', 'metric']),
                                                           min_size=1, max_size=2, unique=True),
                                         'order': st.integers(-1, 3),
-                                        'shutdown_fault': st.sampled_from([None, None, 'E', 'B'])})
+                                        'shutdown_fault': st.sampled_from([None, None, 'E', 'B', None, 'leave'])})
         return fd({
             'pre': st.sampled_from(['none', 'sys', 'threading', 'both', 'same']),
             'no_trace': st.sampled_from([None, None, True, 'True', 'false', '0', 'no', False, '']),
@@ -157,7 +157,10 @@ class C14(Prop):
         for i, p in enumerate(recipe['plugins']):
             f = p['shutdown_fault']
             specs.append({'name': 'P%d' % i, 'roles': p['roles'], 'order': p['order'],
-                          'faults': {'shutdown': ['all', f]} if f else {}})
+                          'leaves_on_shutdown': f == 'leave',
+                          'faults': {'shutdown': ['all', f]} if f in ('E', 'B') else {}})
+            if f == 'leave':
+                out.cls('plugin_leaves_the_list_on_shutdown')
         dotted, mname = plugsynth.make_module(world, specs)
         custom = dict(BUILTIN_OFF, APP_ROOT='/app', PLUGINS=dotted, POLL_TIMER=1000, SERVICE_SECURE='False')
         if recipe.get('poll_timer') == 'bad':
